@@ -100,8 +100,11 @@ class Tup:
 
 
 class Adt:
-    def __init__(self, path, fields):
-        self.path, self.fields = path, list(fields)
+    def __init__(self, path, fields, names=None):
+        self.path, self.fields, self.names = path, list(fields), names
+
+    def field(self, name):
+        return self.fields[self.names.index(name)]
 
     def __repr__(self):
         return f'{self.path}{self.fields}'
@@ -164,6 +167,19 @@ def split_top(s, sep=','):
     return out
 
 
+def split_callee(call):
+    """index of the '(' that opens the argument list: the first one outside <...>"""
+    depth = 0
+    for i, c in enumerate(call):
+        if c == '<':
+            depth += 1
+        elif c == '>' and not (i > 0 and call[i - 1] in '-='):
+            depth -= 1
+        elif c == '(' and depth == 0:
+            return i
+    return None
+
+
 def strip_generics(name):
     out, depth = '', 0
     i = 0
@@ -176,7 +192,7 @@ def strip_generics(name):
         if depth > 0:
             if c == '<':
                 depth += 1
-            elif c == '>':
+            elif c == '>' and name[i - 1] not in '-=':
                 depth -= 1
             i += 1
             continue
@@ -294,6 +310,8 @@ class Interp:
         t = re.sub(r'^(no_retag )?(copy|move) ', '', t)
         if t.startswith('const '):
             return self.constant(t[6:].strip())
+        if '::' in t and re.fullmatch(r'[A-Za-z_][\w:<>, ]*', t):
+            return Opaque('item ' + t)          # function item / constructor passed as a value
         return self.place(t, p)
 
     def constant(self, c):
@@ -311,6 +329,12 @@ class Interp:
         m = re.fullmatch(r'(-?[\d.]+(?:e-?\d+)?)f64', c.replace('_', ''))
         if m:
             return z3.FPVal(float(m.group(1)), z3.Float64())
+        m = re.fullmatch(r'([ui])(8|16|32|64)::(MAX|MIN)', c)
+        if m:
+            bits, signed = int(m.group(2)), m.group(1) == 'i'
+            hi = (1 << (bits - 1)) - 1 if signed else (1 << bits) - 1
+            lo = -(1 << (bits - 1)) if signed else 0
+            return z3.IntVal(hi if m.group(3) == 'MAX' else lo)
         last = c.split('::')[-1]
         if last in self.consts:
             return z3.IntVal(self.consts[last])
@@ -391,7 +415,7 @@ class Interp:
         m = re.fullmatch(r'(\{closure@[^}]*\}) \{(.*)\}', t) or re.fullmatch(r'([\w:<>, &\']+?) \{(.*)\}', t)
         if m:
             fields = [x.split(':', 1) for x in split_top(m.group(2))]
-            return Adt(strip_generics(m.group(1)), [self.operand(v, p) for _, v in fields])
+            return Adt(strip_generics(m.group(1)), [self.operand(v, p) for _, v in fields], [n.strip() for n, _ in fields])
         if re.fullmatch(r'[\w:<>, &\']+', t) and '::' in t:
             return Adt(strip_generics(t), [])
         return self.place(t, p)
@@ -440,6 +464,11 @@ class Interp:
                     arms.append((k.strip(), tgt.strip()))
                 if isinstance(v, tuple) and v[0] == 'disc-of-adt':
                     raise MirError('switch on constructed ADT not needed here')
+                if not z3.is_expr(v):
+                    n = self.name_of(v)
+                    if n is None:
+                        raise MirError('switchInt on ' + repr(v))
+                    v = self.leaf(n + '.int', 'isize')       # result of an uninterpreted call used as a condition
                 taken = []
                 for k, tgt in arms:
                     if k == 'otherwise':
@@ -470,11 +499,12 @@ class Interp:
             m = re.fullmatch(r'(\S.*?) = (.*) -> \[return: (bb\d+), unwind.*\];', line)
             if m and re.match(r'_\d+$|\(\*_\d+\)$', m.group(1)):
                 dst, call, nxt = m.groups()
-                cm = re.fullmatch(r'(.*?)\((.*)\)', strip_generics(call), re.S)
-                if not cm:
+                call = strip_generics(call)
+                k = split_callee(call)
+                if k is None or not call.endswith(')'):
                     raise MirError('call: ' + line)
-                callee = cm.group(1).strip()
-                args = [self.operand(a, p) for a in split_top(cm.group(2))]
+                callee = call[:k].strip()
+                args = [self.operand(a, p) for a in split_top(call[k + 1:-1])]
                 c = Call(callee, args, self._next())
                 val = self.call_model(c, self) if self.call_model else None
                 p.calls.append(c)
